@@ -332,26 +332,31 @@ def r3_per_run_state(report, repo):
               'diagnoses manager / state dict fresh and deep-copies metadata; '
               'TestExecutor._thread_proc creates a new TestState per run')
   f = repo.func(TS, 'PhaseState.from_descriptor')
-  mc = lib.local_from(f, lib.contains_call(name='copy.deepcopy'),
-                      'measurements_copy')
-  defs = lib.resolve_local(f, mc)
-  ok = len(defs) == 1 and isinstance(defs[0], ast.ListComp) and \
-      call_name(defs[0].elt) == 'copy.deepcopy' and \
-      (dotted(defs[0].generators[0].iter) or '').endswith('.measurements')
-  report.check(ok, rule, f.qualname, 'deepcopy-measurements', f.node,
+  # the list of deep copies, whatever it is called, and everything the phase
+  # state's measurements are built from (flow-insensitive "built from" closure)
+  pdesc = lib.param_names(f.node)[1]
+  copies = [n for n in ast.walk(f.node) if isinstance(n, (
+      ast.ListComp, ast.GeneratorExp)) and call_name(n.elt) == 'copy.deepcopy'
+            and (dotted(n.generators[0].iter) or '') == pdesc + '.measurements'
+            and n.elt.args and dotted(n.elt.args[0]) == dotted(
+                n.generators[0].target)]
+  report.check(len(copies) == 1, rule, f.qualname, 'deepcopy-measurements',
+               f.node,
                'measurements of the run are deep copies of the descriptor\'s',
                'the run does not deep-copy the descriptor\'s measurements: '
                'values and outcomes of one run leak into the next')
   cs = [c for c in core.calls_in(f.node) if call_name(c) == 'cls']
-  ok = len(cs) == 1
+  ok = len(cs) == 1 and len(copies) == 1
   if ok:
     mv = core.get_kw(cs[0], 'measurements')
-    ok = mv is not None and any(
-        isinstance(x, ast.Name) and x.id == mc
-        for x in ast.walk(mv)) and not any(
-            isinstance(x, ast.Attribute) and x.attr == 'measurements' and
-            dotted(x.value) == lib.param_names(f.node)[1]
-            for x in ast.walk(mv))
+    ok = mv is not None
+    if ok:
+      _, exprs = lib.sources_of(f, mv)
+      uses_copy = any(any(x is copies[0] for x in ast.walk(e)) for e in exprs)
+      raw = [x for e in exprs for x in ast.walk(e)
+             if isinstance(x, ast.Attribute) and x.attr == 'measurements' and
+             dotted(x.value) == pdesc and x is not copies[0].generators[0].iter]
+      ok = uses_copy and not raw
   report.check(ok, rule, f.qualname, 'state-uses-copies', f.node,
                'the phase state is built from the copies')
   init = repo.func(TS, 'TestState.__init__')
